@@ -86,7 +86,8 @@ func (f *Formatter) Format(vcl *ast.VCL) io.Reader {
 		}
 
 		var lf string
-		if stmt.GetMeta().PreviousEmptyLines > 0 {
+		// Empty lines at the beginning of the file are not kept
+		if stmt.GetMeta().PreviousEmptyLines > 0 && (len(decls) > 0 || len(stmt.GetMeta().Leading) > 0) {
 			lf = "\n"
 		}
 
